@@ -1,6 +1,10 @@
-//! The verification runtime interface. In the IR build these are external symbols that the
-//! symbolic executor models; in the native build (`feature = "native"`) they are implemented by
-//! `native.rs` for replay.
+//! The verification runtime interface.
+//!
+//! IR build (default features): the `verif_*` functions are external symbols which the symbolic
+//! executor models (irsym/models.py). Native build (`--features native`): they are implemented in
+//! `native.rs` and drive a replay of a solver-found input/schedule against the real crate.
+use core::sync::atomic::{AtomicUsize, Ordering};
+
 extern "C" {
     pub fn verif_nondet_u64(id: u32) -> u64;
     pub fn verif_assume(c: bool);
@@ -9,6 +13,13 @@ extern "C" {
     pub fn verif_mark(id: u32, v: u64);
     pub fn verif_set_thread(t: u32);
     pub fn verif_thread_exit(t: u32);
+    /// Preset the calling (simulated) thread's helping-generation counter. In the IR build the
+    /// engine writes the TLS cell (located by calibration); natively it calls the cfg-guarded hook.
+    pub fn verif_set_generation(v: u64);
+}
+extern "C-unwind" {
+    /// A panic raised by *user* code (closure, Drop, Clone supplied by the harness).
+    pub fn verif_user_panic(id: u32);
 }
 
 #[inline(always)]
@@ -30,4 +41,90 @@ pub fn cover(id: u32) {
 #[inline(always)]
 pub fn mark(id: u32, v: u64) {
     unsafe { verif_mark(id, v) }
+}
+#[inline(always)]
+pub fn set_generation(v: u64) {
+    unsafe { verif_set_generation(v) }
+}
+#[inline(always)]
+pub fn user_panic(id: u32) {
+    unsafe { verif_user_panic(id) }
+}
+
+/// Run `f` on simulated thread `t` (sequential multi-thread histories). In the IR build this only
+/// switches which thread-local instance the code sees; natively the closure is shipped to a real
+/// worker thread `t` and the caller waits for it.
+#[cfg(not(feature = "native"))]
+#[inline(always)]
+pub fn on_thread<R, F: FnOnce() -> R>(t: u32, f: F) -> R {
+    unsafe { verif_set_thread(t) };
+    let r = f();
+    unsafe { verif_set_thread(0) };
+    r
+}
+#[cfg(feature = "native")]
+pub fn on_thread<R: Send, F: FnOnce() -> R + Send>(t: u32, f: F) -> R {
+    crate::native::on_thread(t, f)
+}
+
+/// Simulated thread `t` exits: its thread-local destructors run.
+#[inline(always)]
+pub fn thread_exit(t: u32) {
+    unsafe { verif_thread_exit(t) };
+    #[cfg(not(feature = "native"))]
+    unsafe {
+        verif_set_thread(0)
+    };
+}
+
+/// Atomic cell of the harness itself (counts of the instrumented pointer, flags). In the native
+/// build every operation passes the same gate as the crate's atomics so that replayed schedules
+/// cover them.
+#[repr(transparent)]
+pub struct HAtomic(AtomicUsize);
+
+impl HAtomic {
+    pub const fn new(v: usize) -> Self {
+        HAtomic(AtomicUsize::new(v))
+    }
+    #[inline(always)]
+    pub fn load(&self, o: Ordering) -> usize {
+        #[cfg(feature = "native")]
+        crate::native::gate_enter();
+        let r = self.0.load(o);
+        #[cfg(feature = "native")]
+        crate::native::gate_exit();
+        r
+    }
+    #[inline(always)]
+    pub fn store(&self, v: usize, o: Ordering) {
+        #[cfg(feature = "native")]
+        crate::native::gate_enter();
+        self.0.store(v, o);
+        #[cfg(feature = "native")]
+        crate::native::gate_exit();
+    }
+    #[inline(always)]
+    pub fn fetch_add(&self, v: usize, o: Ordering) -> usize {
+        #[cfg(feature = "native")]
+        crate::native::gate_enter();
+        let r = self.0.fetch_add(v, o);
+        #[cfg(feature = "native")]
+        crate::native::gate_exit();
+        r
+    }
+    #[inline(always)]
+    pub fn fetch_sub(&self, v: usize, o: Ordering) -> usize {
+        #[cfg(feature = "native")]
+        crate::native::gate_enter();
+        let r = self.0.fetch_sub(v, o);
+        #[cfg(feature = "native")]
+        crate::native::gate_exit();
+        r
+    }
+    /// Ungated read for oracles evaluated at quiescent points.
+    #[inline(always)]
+    pub fn peek(&self) -> usize {
+        self.0.load(Ordering::Relaxed)
+    }
 }
